@@ -38,15 +38,15 @@ type Opt struct {
 }
 
 type Inst struct {
-	Name   string
-	DB     string
-	Dir    string
-	Env    *lmdb.Env
-	S      *syncer.Syncer
-	B      *bucket.B
-	Opt    Opt
-	Conf   config.Config
-	LC     config.LMDB
+	Name string
+	DB   string
+	Dir  string
+	Env  *lmdb.Env
+	S    *syncer.Syncer
+	B    *bucket.B
+	Opt  Opt
+	Conf config.Config
+	LC   config.LMDB
 }
 
 // New creates the environment in dir and a Syncer for it.
